@@ -395,4 +395,81 @@ theorem itemVals_get (meas : List String) (ms : List Row) :
       rw [this]
       exact itemVals_get meas ms items rest h2 hn.2 it hit'
 
+/-! ### min / max are the least / greatest element -/
+
+
+theorem pick_min_spec {α : Type} (le : α → α → Bool)
+    (trans : ∀ a b c, le a b = true → le b c = true → le a c = true)
+    (total : ∀ a b, le a b = true ∨ le b a = true) (l : List α) (a : α)
+    (h : pick false (isort le l) = some a) : a ∈ l ∧ ∀ b ∈ l, le a b = true := by
+  simp only [pick, Bool.false_eq_true, if_false] at h
+  have hs := isort_pairwise le trans total l
+  have hp := isort_perm le l
+  cases hl : isort le l with
+  | nil => rw [hl] at h; cases h
+  | cons x t =>
+    rw [hl] at h hs hp
+    simp only [List.head?_cons, Option.some.injEq] at h
+    subst h
+    refine ⟨hp.subset List.mem_cons_self, ?_⟩
+    intro b hb
+    rcases List.mem_cons.1 (hp.symm.subset hb) with rfl | hb'
+    · rcases total b b with h1 | h1 <;> exact h1
+    · exact (List.pairwise_cons.1 hs).1 b hb'
+
+theorem pick_max_spec {α : Type} (le : α → α → Bool)
+    (trans : ∀ a b c, le a b = true → le b c = true → le a c = true)
+    (total : ∀ a b, le a b = true ∨ le b a = true) (l : List α) (a : α)
+    (h : pick true (isort le l) = some a) : a ∈ l ∧ ∀ b ∈ l, le b a = true := by
+  simp only [pick, if_true] at h
+  have hs := isort_pairwise le trans total l
+  have hp := isort_perm le l
+  obtain ⟨ys, hy⟩ := List.getLast?_eq_some_iff.1 h
+  rw [hy] at hs hp
+  refine ⟨hp.subset (by simp), ?_⟩
+  intro b hb
+  have hb' := hp.symm.subset hb
+  rcases List.mem_append.1 hb' with h1 | h1
+  · exact (List.pairwise_append.1 hs).2.2 b h1 a (by simp)
+  · simp at h1; subst h1
+    rcases total b b with h2 | h2 <;> exact h2
+
+
+theorem minmax_num (b : Bool) (nn : List Value) (q : Rat) (h : minmax b nn = .ok (.num q)) :
+    pick b (isort ratLe (rats nn)) = some q := by
+  unfold minmax at h
+  cases hk : kindOf nn <;> rw [hk] at h <;> simp only [Except.ok.injEq] at h
+  · cases hp : pick b (isort intLe (ints nn)) <;> rw [hp] at h <;> simp [optV] at h
+  · cases hp : pick b (isort ratLe (rats nn)) <;> rw [hp] at h <;> simp [optV] at h
+    rw [h]
+  · cases hp : pick b (isort strLe (strs nn)) <;> rw [hp] at h <;> simp [optV] at h
+  · cases hp : pick b (isort boolLe (bools nn)) <;> rw [hp] at h <;> simp [optV] at h
+  · cases h
+
+theorem minmax_int (b : Bool) (nn : List Value) (i : Int) (h : minmax b nn = .ok (.int i)) :
+    pick b (isort intLe (ints nn)) = some i := by
+  unfold minmax at h
+  cases hk : kindOf nn <;> rw [hk] at h <;> simp only [Except.ok.injEq] at h
+  · cases hp : pick b (isort intLe (ints nn)) <;> rw [hp] at h <;> simp [optV] at h
+    rw [h]
+  · cases hp : pick b (isort ratLe (rats nn)) <;> rw [hp] at h <;> simp [optV] at h
+  · cases hp : pick b (isort strLe (strs nn)) <;> rw [hp] at h <;> simp [optV] at h
+  · cases hp : pick b (isort boolLe (bools nn)) <;> rw [hp] at h <;> simp [optV] at h
+  · cases h
+
+theorem aggVals_min_eq (xs : List Value) (v : Value) (hv : v ≠ .null) (h : aggVals .min xs = .ok v) :
+    minmax false (nonNull xs) = .ok v := by
+  unfold aggVals aggNN at h
+  simp only at h
+  split at h
+  · simp only [Except.ok.injEq] at h; exact absurd h.symm hv
+  · exact h
+
+theorem aggVals_max_eq (xs : List Value) (v : Value) (hv : v ≠ .null) (h : aggVals .max xs = .ok v) :
+    minmax true (nonNull xs) = .ok v := by
+  unfold aggVals aggNN at h
+  simp only at h
+  split at h
+  · simp only [Except.ok.injEq] at h; exact absurd h.symm hv
+  · exact h
 end VtlModel.Sem
